@@ -169,7 +169,8 @@ fn repertoire(enc_name: &str) -> Vec<char> {
     out
 }
 
-type Shown = Vec<(String, bool)>;
+/// (text, shown with a TJ array, preceded by an empty text object)
+type Shown = Vec<(String, bool, bool)>;
 
 /// pages showing text in `enc_name` through font F1. The font comes from the Resources the pages inherit, or - one
 /// document in three - from Resources of the page itself, while the inherited Resources then carry a different font
@@ -225,7 +226,18 @@ fn build_extraction_doc(r: &mut Rng, enc_name: &str, rep: &[char]) -> Option<(Do
         } else {
             Operation::new("Tj", vec![Object::String(bytes.clone(), fmt)])
         };
-        let content = Content { operations: vec![Operation::new("BT", vec![]), Operation::new("Tf", vec!["F1".into(), 12.into()]), Operation::new("Td", vec![72.into(), 700.into()]), show, Operation::new("ET", vec![])] };
+        // the font is graphics state: it may be selected inside the text object (usual), before it, or in an earlier
+        // text object, and stays selected
+        let tf = Operation::new("Tf", vec!["F1".into(), 12.into()]);
+        let td = Operation::new("Td", vec![72.into(), 700.into()]);
+        let (bt, et) = (Operation::new("BT", vec![]), Operation::new("ET", vec![]));
+        let shape = r.below(6);
+        let operations = match shape {
+            0 => vec![tf, bt, td, show, et],
+            1 => vec![bt.clone(), tf, et.clone(), bt, td, show, et],
+            _ => vec![bt, tf, td, show, et],
+        };
+        let content = Content { operations };
         let mut st = Stream::new(dictionary! {}, content.encode().ok()?);
         if r.bool() {
             let _ = st.compress();
@@ -241,7 +253,7 @@ fn build_extraction_doc(r: &mut Rng, enc_name: &str, rep: &[char]) -> Option<(Do
         }
         let pid = doc.add_object(page);
         kids.push(Object::Reference(pid));
-        expect.push((text, use_tj_array));
+        expect.push((text, use_tj_array, shape == 1));
     }
     doc.objects.insert(pages_id, Object::Dictionary(dictionary! { "Type" => "Pages", "Kids" => kids, "Count" => n_pages as i64, "Resources" => res_id }));
     let cat = doc.add_object(dictionary! { "Type" => "Catalog", "Pages" => pages_id });
@@ -250,7 +262,7 @@ fn build_extraction_doc(r: &mut Rng, enc_name: &str, rep: &[char]) -> Option<(Do
 }
 
 fn check_extraction(d: &Document, expect: &Shown, enc_name: &str, when: &str) -> Option<(String, String)> {
-    for (i, (exp, tj_array)) in expect.iter().enumerate() {
+    for (i, (exp, tj_array, empty_first)) in expect.iter().enumerate() {
         match crate::props::catch(|| d.extract_text(&[(i + 1) as u32])) {
             Err(p) => return Some((format!("extract/{}/panic", enc_name), format!("extract_text panicked {}: {}", when, p))),
             Ok(Err(e)) => return Some((format!("extract/{}/error", enc_name), format!("extract_text failed {}: {:?}", when, e))),
@@ -261,6 +273,11 @@ fn check_extraction(d: &Document, expect: &Shown, enc_name: &str, when: &str) ->
                 if *tj_array {
                     accepted.push(format!("{} ", exp));
                     accepted.push(format!("{} \n", exp));
+                }
+                // (an empty text object in front contributes the line break that ends it)
+                if *empty_first {
+                    let with_break: Vec<String> = accepted.iter().map(|a| format!("\n{}", a)).collect();
+                    accepted.extend(with_break);
                 }
                 if !accepted.contains(&got) {
                     return Some((format!("extract/{}/text", enc_name), format!("page {} {}: extract_text returns {:?}, the page shows {:?}", i + 1, when, got, exp)));
@@ -277,7 +294,7 @@ fn extraction_case(r: &mut Rng, enc_name: &str, rep: &[char]) -> Option<(String,
     let mut bytes = vec![];
     let saved = doc.save_to(&mut bytes).is_ok();
     let witness = json!({"kind":"extract-doc","encoding":enc_name,"file_hex":hex(&bytes),
-        "shown":expect.iter().map(|(t, a)| json!({"utf16":t.encode_utf16().collect::<Vec<u16>>(),"tj_array":a})).collect::<Vec<_>>()});
+        "shown":expect.iter().map(|(t, a, e)| json!({"utf16":t.encode_utf16().collect::<Vec<u16>>(),"tj_array":a,"empty_first":e})).collect::<Vec<_>>()});
     if let Some((s, w)) = check_extraction(&doc, &expect, enc_name, "before saving") {
         return Some((s, w, witness));
     }
@@ -363,7 +380,7 @@ pub fn run(cfg: &RunCfg) -> (PropMeta, ShardOut, Map<String, Value>) {
     });
     let meta = PropMeta {
         level: "exploration",
-        rule: "(a) every Unicode scalar value (1,112,064) as a one-character string through text_string -> decode_text_string with the representation rule checked, plus random strings (ASCII, C0 controls, BMP, astral, BOM characters, whole range), each also as UTF-8-with-BOM and UTF-16BE input; malformed inputs (odd length, lone surrogates, truncated UTF-8) must not panic. (b) the five one-byte encodings reachable through get_font_encoding x all 256 bytes: decode never fails, decode(encode(decode(b))) == decode(b), and the cells 0x20-0x7E / 0xA1-0xFF agree with the published WinAnsi (cp1252), MacRoman (Apple/Annex D) and PDFDoc (Annex D) tables. (c) generated documents whose pages show encode_text(enc, text) with Tj or TJ (literal or hex strings, optional compression; the font reached through inherited Resources, or through the page's own Resources while the inherited ones name a font of another encoding F1 as well): extract_text returns the text - leading and trailing blanks included; only the line break that ends a text object and the blank after a TJ array are allowed in addition - before and after save_to + load_mem. distinct = distinct random strings / extraction documents.".into(),
+        rule: "(a) every Unicode scalar value (1,112,064) as a one-character string through text_string -> decode_text_string with the representation rule checked, plus random strings (ASCII, C0 controls, BMP, astral, BOM characters, whole range), each also as UTF-8-with-BOM and UTF-16BE input; malformed inputs (odd length, lone surrogates, truncated UTF-8) must not panic. (b) the five one-byte encodings reachable through get_font_encoding x all 256 bytes: decode never fails, decode(encode(decode(b))) == decode(b), and the cells 0x20-0x7E / 0xA1-0xFF agree with the published WinAnsi (cp1252), MacRoman (Apple/Annex D) and PDFDoc (Annex D) tables. (c) generated documents whose pages show encode_text(enc, text) with Tj or TJ (literal or hex strings, optional compression; Tf inside the text object, before it, or in an earlier text object; the font reached through inherited Resources, or through the page's own Resources while the inherited ones name a font of another encoding F1 as well): extract_text returns the text - leading and trailing blanks included; only the line break that ends a text object and the blank after a TJ array are allowed in addition - before and after save_to + load_mem. distinct = distinct random strings / extraction documents.".into(),
         assumptions: vec![
             "published-table cells where Apple's MacRoman and Annex D differ (0xDB, 0xBD, 0xC6, 0xB5, 0xCA, 0xF0) and 0xAD accept either value or are skipped".into(),
             "extraction compares modulo trailing white-space (the extractor appends a space after TJ arrays and a newline at ET)".into(),
@@ -389,7 +406,7 @@ pub fn replay(w: &Value) -> Vec<Finding> {
             let bytes = unhex(w["file_hex"].as_str().unwrap_or(""));
             let shown: Shown = w["shown"]
                 .as_array()
-                .map(|a| a.iter().map(|x| (String::from_utf16_lossy(&x["utf16"].as_array().map(|u| u.iter().map(|c| c.as_u64().unwrap_or(0) as u16).collect::<Vec<u16>>()).unwrap_or_default()), x["tj_array"].as_bool().unwrap_or(false))).collect())
+                .map(|a| a.iter().map(|x| (String::from_utf16_lossy(&x["utf16"].as_array().map(|u| u.iter().map(|c| c.as_u64().unwrap_or(0) as u16).collect::<Vec<u16>>()).unwrap_or_default()), x["tj_array"].as_bool().unwrap_or(false), x["empty_first"].as_bool().unwrap_or(false))).collect())
                 .unwrap_or_default();
             match Document::load_mem(&bytes) {
                 Err(e) => vec![Finding { signature: format!("C16/extract/{}/reload", name), what: format!("{:?}", e), witness: w.clone() }],
